@@ -265,8 +265,10 @@ type world struct {
 	peer *vsys.Peer
 
 	origin   string
-	dialDone bool      // the asynchronous dial reported success: from here on no close may report the dial timeout
-	dialAt   time.Time // virtual time of that report
+	dialDone bool // the asynchronous dial reported success: from here on no close may report the dial timeout
+	// a timer was armed when the dial callback (reporting success) was entered: the dial timeout
+	dialTimerInCallback bool
+	dialAt              time.Time // virtual time of that report
 
 	dl       [2]deadline
 	inflight *op
@@ -734,6 +736,10 @@ func (w *world) end(r *opRun) {
 			case o.isWrite():
 				sig = "write-emptied-backlog"
 			}
+			if w.dialTimerInCallback && dir == 1 && w.dl[1].via == "" {
+				w.failf("dial-timer-armed-after-success origin=%s|%s (issued inside the dial callback, which reported success at %s): no write deadline was ever set, yet the connection's write timer is armed for %s - the dial timeout was not cleared before the callback ran", w.origin, how, rel(w.dialAt), rel(ts.t[dir].when))
+				continue
+			}
 			w.failf("timer-armed-after-cancel dir=%s via=%s|%s: the %s deadline is %s but the connection's %s timer is armed for %s", dirName[dir], sig, how, dirName[dir], w.dlString(dir), dirName[dir], rel(ts.t[dir].when))
 		}
 	}
@@ -747,18 +753,37 @@ func (w *world) end(r *opRun) {
 // connect is in progress, so the completion - the poller's EPOLLOUT, the internal clearing of the
 // dial timeout, the user callback - is interleaved with the rest of DialAsyncTimeout wherever
 // the preemption bound allows. It returns false when the execution ends here.
-func (w *world) dial(g *nbio.Engine) bool {
+func (w *world) dial(g *nbio.Engine, ops []op) bool {
 	vsys.DialSndCap = K
 	calls := 0
 	armedAtAccept := 0 // timers armed when the network completed the handshake
 	var cbErr error
 	var cbConn *nbio.Conn
+	// origins dialcb / dialTcb: the operation list is issued INSIDE the dial callback (on the
+	// poller thread, before DialAsyncTimeout's completion handler returns); the clock starts with
+	// the callback, so virtual time can pass while it runs (a sleep inside the callback lets it
+	// outlast the dial timeout)
+	inCB := strings.HasSuffix(w.origin, "cb")
+	base := strings.TrimSuffix(w.origin, "cb")
 	cb := func(cc *nbio.Conn, err error) {
 		w.tick()
 		calls++
 		cbErr, cbConn = err, cc
+		if inCB && err == nil && cc != nil {
+			w.conn, w.dialDone, w.dialAt = cc, true, vtime.VNow()
+			if w.peer == nil {
+				w.peer = vsys.Dials()[0].Peer()
+			}
+			if vtime.Armed() > 0 {
+				w.counters["timers_armed_at_dial_callback_entry"]++
+				w.dialTimerInCallback = true
+			}
+			w.counters["operation_lists_run_inside_the_dial_callback"]++
+			vsched.GoNamed("clock", w.clock)
+			w.threadA(ops)
+		}
 	}
-	switch w.origin {
+	switch base {
 	case "dialTimm":
 		vsys.SetDialPlan(vsys.DialPlan{Immediate: true})
 	case "dial", "dialT":
@@ -771,7 +796,7 @@ func (w *world) dial(g *nbio.Engine) bool {
 		})
 	}
 	var err error
-	if w.origin == "dial" {
+	if base == "dial" {
 		err = g.DialAsync("tcp", "127.0.0.1:80", cb)
 	} else {
 		err = g.DialAsyncTimeout("tcp", "127.0.0.1:80", dialTimeout, cb)
@@ -813,6 +838,14 @@ func (w *world) dial(g *nbio.Engine) bool {
 			w.failf("timer-armed-after-close dir=write via=dial-timeout|the dial timed out and the connection is closed, but %d timer(s) are still armed: %v", n, vtime.ArmedNames())
 			return false
 		}
+		return true
+	}
+	if inCB {
+		if calls != 1 || cbErr != nil || cbConn == nil {
+			w.failf("dial-not-completed origin=%s|the connect was accepted by the network but the dial callback ran %d times (error %v); judged in detail by C03", w.origin, calls, cbErr)
+			return false
+		}
+		w.counters["dialed_connections"]++
 		return true
 	}
 	if calls != 1 || cbErr != nil || cbConn == nil {
@@ -905,7 +938,7 @@ func body(c cfg) func() {
 		w.origin = "add"
 		if c.origin != "" {
 			w.origin = c.origin
-			if !w.dial(g) {
+			if !w.dial(g, c.ops) {
 				for _, f := range w.fails {
 					vsched.Fail("%s", f)
 				}
@@ -923,8 +956,10 @@ func body(c cfg) func() {
 				return
 			}
 		}
-		vsched.GoNamed("A", func() { w.threadA(c.ops) })
-		vsched.GoNamed("clock", w.clock)
+		if !strings.HasSuffix(c.origin, "cb") {
+			vsched.GoNamed("A", func() { w.threadA(c.ops) })
+			vsched.GoNamed("clock", w.clock)
+		}
 		vsched.WaitIdle() // returns when A is done and the clock has fired every timer
 		// ---- final oracle
 		w.tick()
@@ -1350,6 +1385,32 @@ func build(tier string) []*vkit.Scenario {
 			}
 		}
 	}
+	// the operations are issued inside the dial callback (seeded change C16-m8 cleared the dial
+	// timeout AFTER the callback): a write deadline with a backlog that must expire, a read and a
+	// combined deadline, and a callback that takes 8 s of virtual time - longer than the dial timeout
+	for _, x := range []struct {
+		ops     []op
+		origins []string
+		p       int
+	}{
+		{[]op{W(5), wr(5)}, []string{"dialTcb", "dialcb"}, 2}, {[]op{wr(5), W(5)}, []string{"dialTcb"}, 1}, {[]op{W(5)}, []string{"dialTcb"}, 2},
+		{[]op{R(5)}, []string{"dialTcb", "dialcb"}, 2}, {[]op{D(5)}, []string{"dialTcb"}, 1}, {[]op{{'Z', 8}, R(5)}, []string{"dialTcb"}, 1},
+		{[]op{W(5), wr(5), {'Z', 8}}, []string{"dialTcb"}, 1}, {[]op{W(9), W(0), W(5), wr(5)}, []string{"dialTcb"}, 0},
+	} {
+		modes := []ekit.Mode{ekit.LT}
+		if thorough && hasBacklog(x.ops) {
+			modes = ekit.Modes
+		}
+		for _, o := range x.origins {
+			for _, m := range modes {
+				p := x.p
+				if thorough && p < 2 {
+					p++
+				}
+				add(cfg{mode: m, origin: o, ops: x.ops, p: p}, 500)
+			}
+		}
+	}
 	// the dial timeout fires first: the operations find a closed connection (nothing may be armed,
 	// nothing may fire later)
 	for _, l := range [][]op{{W(5)}, {R(5)}, {D(5)}, {D(5), D(0), W(9)}} {
@@ -1362,6 +1423,7 @@ func build(tier string) []*vkit.Scenario {
 		}
 	}
 	all = append(all, keepaliveScenarios(tier)...)
+	all = append(all, udpScenarios(tier)...)
 	sort.SliceStable(all, func(i, j int) bool { return all[i].w > all[j].w })
 	out := make([]*vkit.Scenario, len(all))
 	for i, x := range all {
@@ -1373,7 +1435,7 @@ func build(tier string) []*vkit.Scenario {
 func main() {
 	vkit.Main(&vkit.Spec{
 		Property: "C16", Level: "model_checking",
-		Rule: "core: one scenario = epoll mode x operation list of thread A (length <= 3 quick / <= 4 thorough) over SetReadDeadline/SetWriteDeadline/SetDeadline(now+5s | now+9s | zero time; plus lists with the current instant and a past instant for each setter: alone, after a future deadline of the same direction, across directions, after time passed, followed by renewal / clear / Write / Close, behind a backlog - thorough: every list of length <= 2 over the extended alphabet), Write(1) / Writev(2x1) (fit into the socket, K=3), Write(5) (leaves a backlog of 2), peer drain, 3 s sleep, Close; lists are pruned only where the last operation cannot matter (a clear with nothing to clear, a write without a write deadline, a drain with nothing sent, anything but one deadline set after Close, a trailing sleep); plus 8 lists that end in a close by nbio itself (write overflow, EPIPE after a peer reset); x origin of the connection: every list on an added connection, 22 representative lists (one expiry per kind of deadline, set-clear-set, renewal, Write that empties / leaves a backlog, drain, Close; thorough: every list of length <= 2) on connections from DialAsync / DialAsyncTimeout(7 s) whose connect is completed by a network thread that runs concurrently with the dial call (thorough: also a synchronous connect), 4 lists on the connection left by a dial timeout that fired. A clock thread fires the earliest virtual timer; every placement of a firing relative to A, the poller and the timer callbacks within the preemption bound (listed per scenario; free choices - which thread runs when one blocks or ends, which of two timers with equal deadlines fires - are always complete). keepalive: one scenario = HTTP | WebSocket x epoll mode x list of steps (seconds slept before each unit, drawn from values below, equal to and above the keep-alive time; kind of unit: HTTP complete request | POST head | POST body, WebSocket text | binary | ping | pong | first / middle / last fragment of a message; the gap lists with the default kind - request, text message - up to length 2, every other kind alone and in the listed combinations; 'calm' scenarios - timers fire only when every thread is blocked - cover every ordered pair (thorough: triple) of WebSocket kinds with gaps that make each unit depend on its predecessor's renewal, fragmented messages with control frames in between and HTTP sequences of up to 4 units; Upgrader.KeepaliveTime 4 s by default and 0 (disabled) | 7 | 9 s in dedicated lists with gaps below and beyond the HTTP keep-alive time; 'early' scenarios put the first request into the socket before AddConnNonTLSNonBlocking is called) x handler duration (instantaneous, or 3 of the 7 s / 2 of the 4 s of virtual time spent inside the HTTP handler / the WebSocket message handler, during which the clock runs); firings while no exchange is in flight are placed by the scheduler, firings in the middle of an exchange at three offered points (after the client's write, at handler entry, after the upgrade) within the deviation bound. non-trivial = at least one deadline timer of the connection fired in the scenario",
+		Rule: "core: one scenario = epoll mode x operation list of thread A (length <= 3 quick / <= 4 thorough) over SetReadDeadline/SetWriteDeadline/SetDeadline(now+5s | now+9s | zero time; plus lists with the current instant and a past instant for each setter: alone, after a future deadline of the same direction, across directions, after time passed, followed by renewal / clear / Write / Close, behind a backlog - thorough: every list of length <= 2 over the extended alphabet), Write(1) / Writev(2x1) (fit into the socket, K=3), Write(5) (leaves a backlog of 2), peer drain, 3 s sleep, Close; lists are pruned only where the last operation cannot matter (a clear with nothing to clear, a write without a write deadline, a drain with nothing sent, anything but one deadline set after Close, a trailing sleep); plus 8 lists that end in a close by nbio itself (write overflow, EPIPE after a peer reset); x origin of the connection: every list on an added connection, 22 representative lists (one expiry per kind of deadline, set-clear-set, renewal, Write that empties / leaves a backlog, drain, Close; thorough: every list of length <= 2) on connections from DialAsync / DialAsyncTimeout(7 s) whose connect is completed by a network thread that runs concurrently with the dial call (thorough: also a synchronous connect), 4 lists on the connection left by a dial timeout that fired, 8 lists issued INSIDE the dial callback (a write deadline with a backlog that must expire, read / combined deadline, a callback that sleeps 8 s > dial timeout; the clock starts with the callback). A clock thread fires the earliest virtual timer; every placement of a firing relative to A, the poller and the timer callbacks within the preemption bound (listed per scenario; free choices - which thread runs when one blocks or ends, which of two timers with equal deadlines fires - are always complete). keepalive: one scenario = HTTP | WebSocket x epoll mode x list of steps (seconds slept before each unit, drawn from values below, equal to and above the keep-alive time; kind of unit: HTTP complete request | POST head | POST body, WebSocket text | binary | ping | pong | first / middle / last fragment of a message; the gap lists with the default kind - request, text message - up to length 2, every other kind alone and in the listed combinations; 'calm' scenarios - timers fire only when every thread is blocked - cover every ordered pair (thorough: triple) of WebSocket kinds with gaps that make each unit depend on its predecessor's renewal, fragmented messages with control frames in between and HTTP sequences of up to 4 units; Upgrader.KeepaliveTime 4 s by default and 0 (disabled) | 7 | 9 s in dedicated lists with gaps below and beyond the HTTP keep-alive time; 'early' scenarios put the first request into the socket before AddConnNonTLSNonBlocking is called) x handler duration (instantaneous, or 3 of the 7 s / 2 of the 4 s of virtual time spent inside the HTTP handler / the WebSocket message handler, during which the clock runs); firings while no exchange is in flight are placed by the scheduler, firings in the middle of an exchange at three offered points (after the client's write, at handler entry, after the upgrade) within the deviation bound. udp: one scenario = epoll mode x Config.UDPReadTimeout (0 = disabled | 5 s) x list of datagrams (gap in seconds below / equal to / above the timeout, remote A | B, handler action: none | SetReadDeadline(now+9s) | SetReadDeadline(zero) on the session) sent to a UDP server connection served by the poller; timers fire at quiescence, every interleaving of the poller, the timer callbacks and the notification thread within the preemption bound. non-trivial = at least one deadline timer of the connection fired in the scenario (or, with keep-alive / the UDP timeout disabled, the connection / session was open at the end as it must be)",
 		Assumptions: []string{
 			"virtual time: the clock only moves when a timer fires and then jumps exactly to that timer's deadline; nbio reads it through time.Now/time.Until/AfterFunc/Reset. 'Never early' and 'at the deadline' are judged on the virtual time of the FIRING (the instant the runtime starts the AfterFunc callback), not on the time of the close notification, which nbio delivers asynchronously",
 			"reference model per direction: deadline = last non-zero Set*Deadline that returned; none after a zero-time set, after Close, after any close notification, and (write direction) after a Write/Writev call that returned with an empty backlog. A backlog emptied later by the poller's flush does not clear the write deadline in the model (SetWriteDeadline's doc comment), but a connection that is still open at the end in that situation would not be reported either",
@@ -1389,6 +1451,8 @@ func main() {
 			"a deadline that is already reached when it is set (SetXDeadline(time.Now()), an instant in the past; any non-zero time.Time) is a deadline, not a clear: read off the unchanged code, every setter tests t.IsZero() only and arms a timer for max(0, time.Until(t)), so the connection is closed 'at once' with the corresponding timeout error; in the model such a deadline lies at the instant it was armed ([begin, end] of the setting call), it replaces a pending later deadline of the same direction, a connection that stays open is reported as deadline-not-enforced ... reached-when-set, and a renewal / clear / emptying Write that follows races with the immediate firing like any other",
 			"Upgrader.KeepaliveTime = 0 means keep-alive is disabled on the WebSocket connection (read off Upgrade: it clears the read deadline then, and handleWsMessage never re-arms): once the upgrade exchange is complete no deadline exists, every firing of the connection's read timer is stale (keepalive-close-while-disabled) and 'open at the end' is the expected outcome. With a positive value the deadline after the upgrade is upgrade + that value, whether it is smaller or larger than the HTTP keep-alive time",
 			"early first request: when the client's first request is in the socket before the connection is handed to AddConnNonTLSNonBlocking, the order 'request handled, then accept-time arming' is possible; the model does not care about the order - the last activity is the handled request (same virtual instant as the accept), so the deadline must be the one that follows from it. The cause is named in the signature (accept-arming-overrides-upgrade-deadline) only when the harness saw, on return of the call, a read timer armed for something else than the model's deadline",
+			"operations inside the dial callback: the callback's report of success is the completion of the dial; a deadline armed inside it is a deadline like any other (a write deadline with a backlog to a peer that does not read must close the connection with ErrWriteTimeout), and from the callback's entry on no close may carry ErrDialTimeout and the write-timer slot must be free until the application sets a write deadline (dial-timer-armed-after-success)",
+			"UDP sessions (read off readUDP): with Config.UDPReadTimeout = T > 0 every datagram read for a session sets that session's read deadline to now + T, before the data handler runs; the model's interval is [send + T, handler entry + T]. A deadline the handler sets explicitly replaces it and is itself replaced by the next datagram's now + T; with T = 0 datagrams touch no deadline. A session is ended only by its own deadline (ErrReadTimeout), datagrams of another remote change nothing, a session without deadline is open at the end, and a remote whose session was closed opens a new session with its next datagram. The UDP server connection itself has no deadline",
 			"not judged here: number of close notifications and errors returned by calls on a closed connection (C03), byte stream contents (C01), buffer ownership (C11; a fresh tracking allocator is installed per execution for isolation)",
 		},
 		Build: build, QuickBudget: 45 * time.Second, ThoroughBudget: 6 * time.Minute, MinNonTrivial: 300,
